@@ -601,6 +601,7 @@ Proof.
     destruct vs as [|v r]; [congruence|]. unfold max_len.
     pose proof (fold_max_ge (map v_len r) (v_len v)). specialize (Hlen v (or_introl eq_refl)). lia. }
   change (match rest with [] => max_len vs | (o', _) :: _ => o' - o end) with d.
+  unfold cons_event.
   destruct vs as [|v [|v2 r]]; [congruence| |].
   - cbn [nplace map]. rewrite Hd0. reflexivity.
   - unfold nplace. cbn [map]. rewrite Hd0. unfold r_cons_many. cbn [map cl mkn n_pitch n_vel dur_of n_dur f_pitch f_voice].
@@ -655,4 +656,35 @@ Lemma roundtrip_track : forall es tend,
 Proof.
   intros es tend Hok. unfold read_track. rewrite scan_file_of_calls by exact Hok.
   apply read_notes_closed. unfold events_ok in Hok. apply andb_true_iff in Hok as [H _]. exact H.
+Qed.
+
+(* the written track contains a note_on as soon as one voice was written *)
+Lemma sched_from_ons : forall es o t done f, In f (place_all es o) -> In (on_msg f) (sched_from es o t done).
+Proof.
+  induction es as [|e r IH]; intros o t done f Hin; [destruct Hin|].
+  cbn [place_all sched_from] in *. apply in_or_app. right. apply in_or_app.
+  apply in_app_or in Hin as [Hin|Hin]; [left; apply in_map; exact Hin|right; apply IH; exact Hin].
+Qed.
+Lemma encode_in : forall calls last tend t m, In (t, m) calls -> exists d, In (d, m) (encode last calls tend).
+Proof.
+  induction calls as [|[t' m'] r IH]; intros last tend t m Hin; [destruct Hin|].
+  cbn [encode]. destruct Hin as [E|Hin].
+  - inversion E; subst. exists (t - last). left; reflexivity.
+  - destruct (IH t' tend _ _ Hin) as [d Hd]. exists d. right; exact Hd.
+Qed.
+Lemma file_has_note_on : forall es tend, place_all es 0 <> [] ->
+  existsb is_note_on (encode 0 (sched_calls es) tend) = true.
+Proof.
+  intros es tend Hne. destruct (place_all es 0) as [|f r] eqn:E; [congruence|].
+  assert (Hin : In f (place_all es 0)) by (rewrite E; left; reflexivity).
+  pose proof (sched_from_ons es 0 0 [] f Hin) as H. unfold on_msg in H.
+  destruct (encode_in _ 0 tend _ _ H) as [d Hd].
+  apply existsb_exists. exists (d, NoteOn 0 (f_pitch f) (v_vel (f_voice f))). split; [exact Hd|reflexivity].
+Qed.
+
+Lemma fold_max_id : forall l a, (forall x, In x l -> x <= a) -> fold_left Z.max l a = a.
+Proof.
+  induction l as [|x r IH]; intros a H; [reflexivity|]. cbn [fold_left].
+  replace (Z.max a x) with a by (specialize (H x (or_introl eq_refl)); lia).
+  apply IH. intros y Hy. apply H. right; exact Hy.
 Qed.
